@@ -137,6 +137,15 @@ Section Scope.
     | r :: rest => match assign_rule r tn with None => None | Some tn' => assign_rules rest tn' end
     end.
 
+  (** a history in which the caller catches the ValueError of a refused rule and carries on:
+      assign_all builds the Setting of EVERY scope of the rule before it assigns any of them, so a
+      rule one of whose scopes is refused (not necessarily the first one visited) assigns nothing *)
+  Definition assign_rule_tol (r : srule) (tn : table * nat) : table * nat :=
+    match assign_rule r tn with Some tn' => tn' | None => tn end.
+
+  Definition assign_rules_tol (rs : list srule) (tn : table * nat) : table * nat :=
+    fold_left (fun tn r => assign_rule_tol r tn) rs tn.
+
   (** update_from_calculator: the value of the Setting OBJECT at a scell is overwritten *)
   Definition lookup (t : table) (c : scell) : option stg :=
     match find (fun cs => scell_eqb (fst cs) c) t with Some cs => Some (snd cs) | None => None end.
